@@ -95,7 +95,7 @@ def stat_grid():
     # (shape, tier, role): role 'ok' must pass; 'degenerate' = recorded known findings (D7)
     cases = [([4],"quick","ok"),([5],"quick","ok"),([3],"quick","degenerate"),([2],"quick","degenerate"),([1],"quick","degenerate"),([0],"quick","degenerate"),
              ([2,2],"quick","ok"),([2,3],"quick","ok"),([3,3],"quick","ok"),([4,2],"thorough","ok"),([1,3],"quick","degenerate"),([3,1],"quick","degenerate"),([1,1],"thorough","degenerate"),([0,2],"quick","degenerate"),
-             ([2,2,2],"quick","ok"),([1,2,2],"quick","ok"),([2,1,3],"thorough","ok"),([1,1,1],"thorough","ok"),
+             ([2,2,2],"quick","ok"),([1,2,2],"quick","ok"),([3,3,1],"quick","ok"),([3,3,2],"thorough","ok"),([3,3,1,1],"thorough","ok"),([2,1,3],"thorough","ok"),([1,1,1],"thorough","ok"),
              ([2,2,2,2],"thorough","ok"),([1,2,1,2],"quick","ok"),([1,1,1,1],"thorough","ok"),([2,1,1,1,1],"thorough","ok")]
     for sh, tier, role in cases:
         n = math.prod(sh); r = len(sh)
